@@ -559,4 +559,81 @@ theorem tokenize_pieces (ps : List Piece) (hg : ∀ x ∈ ps, GoodPiece x) :
           ← List.cons_append, hstep, ih0, decode_escapeText]
         cases tokenize fuel _ <;> simp
 
+
+/-! ### fuel: every token consumes at least one character -/
+
+def ind (p : Str) : Nat := if p.isEmpty then 0 else 1
+
+theorem ind_append_le (p t : Str) : ind (p ++ t) ≤ ind p + (escapeText t).length := by
+  cases p with
+  | cons c p => simp [ind]
+  | nil =>
+    cases t with
+    | nil => simp [ind]
+    | cons c t =>
+      have := escapeText_ne_nil (c :: t) (by simp)
+      have : 1 ≤ (escapeText (c :: t)).length := by
+        cases h : escapeText (c :: t) with
+        | nil => exact absurd h this
+        | cons _ _ => simp
+      simp [ind]; omega
+
+theorem emitT_length (p : Str) : (emitT p).length = ind p := by
+  cases p <;> simp [emitG, ind]
+
+theorem pieces_bound (ps : List Piece) (hg : ∀ x ∈ ps, GoodPiece x) :
+    ∀ p : Str, (runsT p (ps.map (·.2))).1.length + ind (runsT p (ps.map (·.2))).2
+      ≤ ind p + (srcOf ps).length := by
+  induction ps with
+  | nil => intro p; simp [runsG, srcOf]
+  | cons x ps ih =>
+    intro p
+    have ih' := ih (fun y hy => hg y (by simp [hy]))
+    rcases hg x (by simp) with ⟨t, rfl⟩ | ⟨hnt, ⟨r, hr⟩, -⟩
+    · have h1 : runsT p (((escapeText t, Token.text t) :: ps).map (·.2)) = runsT (p ++ t) (ps.map (·.2)) := by
+        simp only [List.map_cons]; exact runsG_cons_some _ _ _ _ _ t rfl
+      rw [h1, srcOf_cons]
+      have := ih' (p ++ t)
+      have := ind_append_le p t
+      simp only [List.length_append]
+      omega
+    · obtain ⟨src, tok⟩ := x
+      simp only at hnt hr
+      subst hr
+      have h1 : runsT p (((60 :: r, tok) :: ps).map (·.2))
+          = (emitT p ++ tok :: (runsT [] (ps.map (·.2))).1, (runsT [] (ps.map (·.2))).2) := by
+        simp only [List.map_cons]; exact runsG_cons_none _ _ _ _ _ hnt
+      rw [h1, srcOf_cons]
+      have := ih' []
+      simp only [List.length_append, List.length_cons, emitT_length]
+      have h0 : ind [] = 0 := rfl
+      rw [h0] at this
+      omega
+
+/-- the tokenizer, with the fuel `parse` gives it, on the source of good pieces -/
+theorem tokenize_pieces_full (ps : List Piece) (hg : ∀ x ∈ ps, GoodPiece x) :
+    tokenize ((srcOf ps).length + 1) (srcOf ps)
+      = some ((runsT [] (ps.map (·.2))).1 ++ emitT (runsT [] (ps.map (·.2))).2) := by
+  have hb := pieces_bound ps hg []
+  simp only [ind, List.isEmpty_nil, ↓reduceIte, Nat.zero_add] at hb
+  generalize hT : (runsT [] (ps.map (·.2))).1 = T at hb
+  generalize hq : (runsT [] (ps.map (·.2))).2 = q at hb
+  have key := tokenize_pieces ps hg [] ((srcOf ps).length + 1 - T.length) []
+  rw [hT, hq, escapeText_nil, List.nil_append, List.append_nil, List.append_nil] at key
+  have hf : (srcOf ps).length + 1 - T.length + T.length = (srcOf ps).length + 1 := by omega
+  rw [hf] at key
+  rw [key]
+  by_cases hqe : q = []
+  · subst hqe
+    obtain ⟨f, hf'⟩ : ∃ f, (srcOf ps).length + 1 - T.length = f + 1 := ⟨(srcOf ps).length - T.length, by omega⟩
+    rw [hf', escapeText_nil, tokenize_nil]
+    simp [emitG]
+  · have hqi : q.isEmpty = false := by cases q <;> simp_all
+    simp only [hqi, Bool.false_eq_true, ↓reduceIte] at hb
+    obtain ⟨f, hf'⟩ : ∃ f, (srcOf ps).length + 1 - T.length = f + 1 + 1 :=
+      ⟨(srcOf ps).length - T.length - 1, by omega⟩
+    rw [hf', tokenize_text_end _ _ (escapeText_ne_nil q hqe) (escapeText_no_lt q), tokenize_nil,
+      decode_escapeText]
+    simp [emitG, hqi]
+
 end SycVerif.Html
